@@ -5,3 +5,5 @@ pub assume_specification<T, P: FnOnce(&T) -> bool>[ Option::<T>::filter ](o: Opt
 pub assume_specification<T, F: FnOnce(T) -> bool>[ Option::<T>::is_some_and ](o: Option<T>, f: F) -> (r: bool)
     ensures o is None ==> !r, o matches Some(x) ==> f.ensures((x,), r);
 
+pub assume_specification<T, E, U, F: FnOnce(T) -> Result<U, E>>[ Result::<T, E>::and_then ](r: Result<T, E>, f: F) -> (o: Result<U, E>)
+    ensures r matches Err(e) ==> o == Err::<U, E>(e), r matches Ok(t) ==> f.ensures((t,), o);
